@@ -27,6 +27,7 @@ import (
 
 	"github.com/pingcap/log"
 	tikverr "github.com/tikv/client-go/v2/error"
+	"github.com/tikv/client-go/v2/internal/mockstore/mocktikv"
 	"github.com/tikv/client-go/v2/internal/unionstore"
 	"github.com/tikv/client-go/v2/kv"
 	"github.com/tikv/client-go/v2/testutils"
@@ -43,7 +44,11 @@ type Op struct {
 	Keys []string `json:"keys,omitempty"`
 	Lo   string   `json:"lo,omitempty"`
 	Hi   string   `json:"hi,omitempty"`
-	H    int      `json:"h,omitempty"`  // release/cleanup: -1 = the live top handle, else literal handle
+	F    []int    `json:"f,omitempty"`  // flag ops (index of the FlagsOp constant) of set/del/uflags
+	E    uint64   `json:"e,omitempty"`  // limits: entry size limit (0 = unlimited)
+	B    uint64   `json:"b,omitempty"`  // limits: buffer size limit (0 = unlimited)
+	Stale bool    `json:"stale,omitempty"` // set/del: open a buffer iterator before the write and probe it afterwards
+	H    int      `json:"h,omitempty"`  // release/cleanup/inspect: -1 = the live top handle, else literal handle
 	ID   int      `json:"id,omitempty"` // cp / revert: checkpoint label
 }
 type Program struct {
@@ -205,6 +210,9 @@ var theStore *tikv.KVStore
 var prevBase [][]byte
 
 var storeUses int
+var theCluster *testutils.MockCluster
+var storeMultiRegion, storeSingle bool
+var storeRand = rand.New(rand.NewSource(4242))
 
 func getStore() *tikv.KVStore {
 	// a fresh mock store every 60 transactions: the MVCC history of one store makes later scans slower
@@ -218,7 +226,27 @@ func getStore() *tikv.KVStore {
 	}
 	client, cluster, pdClient, err := testutils.NewMockTiKV("", nil)
 	must(err)
-	testutils.BootstrapWithSingleStore(cluster)
+	// several regions; split points are themselves adversarial keys (prefixes of pool keys, 00/ff runs)
+	cands := [][]byte{{0, 0}, {1}, {'a'}, {'a', 0}, {'a', 0, 0}, {'a', 'a', 'a', 'a', 'a', 'a', 'a', 'a', 'a', 'a', 'a', 'a', 'a', 'a', 'a', 'a', 'a', 'a', 'a', 'a', 'a', 'a', 'b'},
+		{'a', 'b'}, {'a', 0xff}, {'b'}, {0xfe}, {0xff}, {0xff, 0}, {0xff, 0xff}}
+	var splits [][]byte
+	storeSingle = gstats["txn-stores"]%4 == 3 // every 4th store keeps one region: open-ended reverse scans run as they are
+	for _, c := range cands {
+		if !storeSingle && storeRand.Intn(3) == 0 {
+			splits = append(splits, c)
+		}
+	}
+	if v := os.Getenv("VERIF_C07_SPLITS"); v != "" { // debugging aid: fixed split keys (comma separated hex)
+		splits = nil
+		for _, h := range strings.Split(v, ",") {
+			splits = append(splits, unhx(h))
+		}
+	}
+	testutils.BootstrapWithMultiRegions(cluster, splits...)
+	gstats["txn-stores"]++
+	gstats["txn-store-regions"] += len(splits) + 1
+	theCluster = cluster
+	storeMultiRegion = len(splits) > 0
 	st, err := tikv.NewTestTiKVStore(client, pdClient, nil, nil, 0)
 	must(err)
 	theStore = st
@@ -277,7 +305,17 @@ func (t *txnTarget) BatchGet(keys [][]byte) ([][]byte, bool, map[string][]byte, 
 	return nil, false, r, nil
 }
 func (t *txnTarget) Iter(lo, hi []byte) (unionstore.Iterator, error)        { return t.txn.Iter(lo, hi) }
-func (t *txnTarget) IterReverse(hi, lo []byte) (unionstore.Iterator, error) { return t.txn.IterReverse(hi, lo) }
+func (t *txnTarget) IterReverse(hi, lo []byte) (unionstore.Iterator, error) {
+	// Reverse scans whose upper end is the end of the key space run as they are, also over several regions
+	// (F08b does not reproduce through KVTxn on the current tree). VERIF_C07_CLOSED_END=1 replaces the open end
+	// by an explicit bound above every generated key (debugging aid).
+	if len(hi) == 0 && storeMultiRegion && os.Getenv("VERIF_C07_CLOSED_END") != "" {
+		hi = bytes.Repeat([]byte{0xff}, 40)
+	} else if len(hi) == 0 && storeMultiRegion && countStats {
+		gstats["txn-riter-open-end-over-several-regions"]++
+	}
+	return t.txn.IterReverse(hi, lo)
+}
 func (t *txnTarget) Close()                                                 { _ = t.txn.Rollback() }
 
 // ---------------------------------------------------------------- discipline tracker (value-log positions)
@@ -382,6 +420,9 @@ func (t *tracker) revert(id int) {
 // ---------------------------------------------------------------- reference (specification) view
 // snapshot map overlaid with the buffered writes in program order; savepoints keep previous versions
 type refState struct {
+	flags  map[string]kv.KeyFlags // every existing key (has a value or has flags), program order fold of the flag ops
+	elim   uint64
+	blim   uint64
 	snap   map[string][]byte
 	buf    map[string][]byte // present key -> value; empty value = tombstone
 	stack  []map[string][]byte
@@ -394,6 +435,46 @@ func copyMap(m map[string][]byte) map[string][]byte {
 		r[k] = v
 	}
 	return r
+}
+func fopsOf(f []int) []kv.FlagsOp {
+	var l []kv.FlagsOp
+	for _, i := range f {
+		l = append(l, kv.FlagsOp(1)<<uint(i))
+	}
+	return l
+}
+func fopsString(f []int) string {
+	if len(f) == 0 {
+		return "-"
+	}
+	var l []string
+	for _, i := range f {
+		l = append(l, strconv.Itoa(i))
+	}
+	return strings.Join(l, ",")
+}
+
+const persistentFlags = kv.KeyFlags(2 | 8 | 2048 | 8192)
+
+// undo: keys that lose their first value keep only the persistent flags (and vanish without any)
+func (r *refState) undoTo(restored map[string][]byte) {
+	for k := range r.buf {
+		if _, ok := restored[k]; !ok {
+			if f := r.flags[k] & persistentFlags; f != 0 {
+				r.flags[k] = f
+			} else {
+				delete(r.flags, k)
+			}
+		}
+	}
+	r.buf = restored
+}
+func (r *refState) size() int {
+	n := 0
+	for k := range r.flags {
+		n += len(k) + len(r.buf[k])
+	}
+	return n
 }
 func (r *refState) get(k string) ([]byte, bool) {
 	if v, ok := r.buf[k]; ok {
@@ -529,7 +610,8 @@ func execProgram(id int, p *Program, emit func(string)) (*failure, bool) {
 	if emit != nil {
 		emit(fmt.Sprintf("PROG\t%d\t%s\t%s", id, p.Target, kvsString(snap)))
 	}
-	ref := &refState{snap: map[string][]byte{}, buf: map[string][]byte{}, cps: map[int]map[string][]byte{}}
+	ref := &refState{snap: map[string][]byte{}, buf: map[string][]byte{}, cps: map[int]map[string][]byte{}, flags: map[string]kv.KeyFlags{},
+		elim: ^uint64(0), blim: ^uint64(0)}
 	for _, e := range snap {
 		ref.snap[string(e.K)] = e.V
 	}
@@ -558,11 +640,21 @@ func execProgram(id int, p *Program, emit func(string)) (*failure, bool) {
 			k := unhx(o.K)
 			v := unhx(o.V)
 			var err error
+			fops := fopsOf(o.F)
+			var itStale unionstore.Iterator
+			if o.Stale {
+				itStale, _ = buf.Iter(nil, nil)
+			}
 			pan := protect(func() {
-				if o.Op == "set" {
+				switch {
+				case o.Op == "set" && len(fops) == 0:
 					err = buf.Set(k, v)
-				} else {
+				case o.Op == "set":
+					err = buf.SetWithFlags(k, v, fops...)
+				case len(fops) == 0:
 					err = buf.Delete(k)
+				default:
+					err = buf.DeleteWithFlags(k, fops...)
 				}
 			})
 			res := "ok"
@@ -570,22 +662,51 @@ func execProgram(id int, p *Program, emit func(string)) (*failure, bool) {
 				res = "panic"
 			} else if err != nil {
 				res = "err"
-			}
-			expectErr := o.Op == "set" && len(v) == 0
-			if !oracle("write-accepted", (res == "ok") == !expectErr && res != "panic") {
-				setFail("write-accepted", idx, res)
-			}
-			if !expectErr {
-				if o.Op == "del" {
-					v = nil
+				if _, ok := err.(*tikverr.ErrEntryTooLarge); ok {
+					res = "entrytoolarge"
+				} else if _, ok := err.(*tikverr.ErrTxnTooLarge); ok {
+					res = "txntoolarge"
 				}
+			}
+			if o.Op == "del" {
+				v = nil
+			}
+			want := "ok"
+			applied := true
+			if o.Op == "set" && len(v) == 0 {
+				want, applied = "err", false
+			} else if uint64(len(k)+len(v)) > ref.elim {
+				want, applied = "entrytoolarge", false
+			}
+			if applied {
 				ref.buf[string(k)] = v
+				ref.flags[string(k)] = kv.ApplyFlagsOps(ref.flags[string(k)], append([]kv.FlagsOp{kv.DelNeedConstraintCheckInPrewrite}, fops...)...)
 				tr.write(string(k), v)
+				if uint64(ref.size()) > ref.blim {
+					want = "txntoolarge"
+				}
+			}
+			if !oracle("write-status(limits)", res == want) {
+				setFail("write-status(limits)", idx, res+" want "+want)
 			}
 			if o.Op == "set" {
-				line(idx, "set", []string{hd(o.K), hd(o.V)}, res)
+				line(idx, "set", []string{hd(o.K), hd(o.V), fopsString(o.F)}, res)
 			} else {
-				line(idx, "del", []string{hd(o.K)}, res)
+				line(idx, "del", []string{hd(o.K), fopsString(o.F)}, res)
+			}
+			if itStale != nil {
+				// an iterator of the buffer that is used after a write must fail loudly (ART: sequence number)
+				if _, hasSeq := unionstore.VerifUnionWriteSeq(buf); hasSeq {
+					p2 := protect(func() { itStale.Valid() })
+					r2 := "ok"
+					if p2 != "" {
+						r2 = "panic"
+					}
+					line(idx, "stale", nil, r2)
+					if !oracle("stale-iterator-fails-loudly", (r2 == "panic") == applied) {
+						setFail("stale-iterator-fails-loudly", idx, r2)
+					}
+				}
 			}
 			// latest write wins, read back through the union store
 			var gv []byte
@@ -736,6 +857,263 @@ func execProgram(id int, p *Program, emit func(string)) (*failure, bool) {
 			if !oracle("iter=overlay", good && kvsString(want) == kvsString(l)) {
 				setFail("iter=overlay", idx, "got "+res+" want "+kvsString(want))
 			}
+		case "split":
+			// a region split under the running transaction (real KVTxn tier only); not an operation of the model
+			if _, isTxn := t.(*txnTarget); isTxn && theCluster != nil && !storeSingle {
+				k := unhx(o.K)
+				mk := mocktikv.NewMvccKey(k) // the mock cluster is keyed by encoded keys
+				if r, _, _, _ := theCluster.GetRegionByKey(mk); r != nil && !bytes.Equal(r.StartKey, mk) && len(k) > 0 {
+					storeMultiRegion = true
+					ids := theCluster.AllocIDs(2)
+					theCluster.Split(r.Id, ids[0], k, []uint64{ids[1]}, ids[1])
+					if countStats {
+						gstats["txn-mid-program-splits"]++
+					}
+				}
+			}
+		case "uflags":
+			k := unhx(o.K)
+			fops := fopsOf(o.F)
+			pan := protect(func() { buf.UpdateFlags(k, fops...) })
+			res := "ok"
+			if pan != "" {
+				res = "panic"
+			}
+			ref.flags[string(k)] = kv.ApplyFlagsOps(ref.flags[string(k)], fops...)
+			line(idx, "uflags", []string{hd(o.K), fopsString(o.F)}, res)
+			if !oracle("flags-update-accepted", pan == "") {
+				setFail("flags-update-accepted", idx, pan)
+			}
+		case "limits":
+			e, b := o.E, o.B
+			if e == 0 {
+				e = ^uint64(0)
+			}
+			if b == 0 {
+				b = ^uint64(0)
+			}
+			buf.SetEntrySizeLimit(e, b)
+			ref.elim, ref.blim = e, b
+			line(idx, "limits", []string{strconv.FormatUint(e, 16), strconv.FormatUint(b, 16)}, "ok")
+		case "gflags":
+			k := unhx(o.K)
+			var f kv.KeyFlags
+			var ferr error
+			pan := protect(func() { f, ferr = buf.GetFlags(k) })
+			res := "nf"
+			if pan != "" {
+				res = "panic"
+			} else if ferr == nil {
+				res = "f " + strconv.Itoa(int(f))
+			}
+			line(idx, "gflags", []string{hd(o.K)}, res)
+			wf, ok := ref.flags[string(k)]
+			want := "nf"
+			if ok {
+				want = "f " + strconv.Itoa(int(wf))
+			}
+			if !oracle("flags=fold-of-flag-ops", res == want) {
+				setFail("flags=fold-of-flag-ops", idx, res+" want "+want)
+			}
+			if us, isUS := t.(*usTarget); isUS {
+				has := us.us.HasPresumeKeyNotExists(k)
+				if !oracle("has-presume-kne", has == (ok && wf.HasPresumeKeyNotExists())) {
+					setFail("has-presume-kne", idx, fmt.Sprint(has))
+				}
+			}
+		case "len":
+			var n, sz int
+			pan := protect(func() { n, sz = buf.Len(), buf.Size() })
+			res := fmt.Sprintf("len %d size %d", n, sz)
+			if pan != "" {
+				res = "panic"
+			}
+			line(idx, "len", nil, res)
+			if !oracle("len=existing-keys,size=keys+values", pan == "" && n == len(ref.flags) && sz == ref.size()) {
+				setFail("len=existing-keys,size=keys+values", idx, fmt.Sprintf("%s want len %d size %d", res, len(ref.flags), ref.size()))
+			}
+		case "iterf", "riterf":
+			lo, hi := unhx(o.Lo), unhx(o.Hi)
+			rev := o.Op == "riterf"
+			if rev {
+				lo = nil
+			}
+			var l []unionstore.VerifUnionFlagged
+			var okT bool
+			pan := protect(func() { l, okT = unionstore.VerifUnionIterWithFlags(buf, lo, hi, rev) })
+			if pan == "" && !okT {
+				continue
+			}
+			var parts []string
+			for _, e := range l {
+				v := "nil"
+				if e.HasV {
+					v = hd(hx(e.V))
+				}
+				parts = append(parts, hd(hx(e.K))+":"+strconv.Itoa(int(e.F))+":"+v)
+			}
+			res := strings.Join(parts, ",")
+			if res == "" {
+				res = "-"
+			}
+			if pan != "" {
+				res = "panic"
+			}
+			line(idx, o.Op, []string{hd(hx(lo)), hd(o.Hi)}, res)
+			// every existing key in bounds, in order, with the folded flags and the current value
+			var keys []string
+			for k := range ref.flags {
+				if inBounds([]byte(k), lo, hi) {
+					keys = append(keys, k)
+				}
+			}
+			sort.Strings(keys)
+			if rev {
+				for i, j := 0, len(keys)-1; i < j; i, j = i+1, j-1 {
+					keys[i], keys[j] = keys[j], keys[i]
+				}
+			}
+			var wparts []string
+			for _, k := range keys {
+				v := "nil"
+				if bv, has := ref.buf[k]; has {
+					v = hd(hx(bv))
+				}
+				wparts = append(wparts, hd(hx([]byte(k)))+":"+strconv.Itoa(int(ref.flags[k]))+":"+v)
+			}
+			want := strings.Join(wparts, ",")
+			if want == "" {
+				want = "-"
+			}
+			if !oracle("iter-with-flags=existing-keys", res == want) {
+				setFail("iter-with-flags=existing-keys", idx, res+" want "+want)
+			}
+		case "sget":
+			k := unhx(o.K)
+			var ve kv.ValueEntry
+			var gerr error
+			pan := protect(func() { ve, gerr = buf.SnapshotGetter().Get(context.Background(), k) })
+			res := "nf"
+			if pan != "" {
+				res = "panic"
+			} else if gerr == nil {
+				res = "v " + hd(hx(ve.Value))
+			} else if !tikverr.IsErrNotFound(gerr) {
+				res = "err"
+			}
+			line(idx, "sget", []string{hd(o.K)}, res)
+			base := ref.buf
+			if len(ref.stack) > 0 {
+				base = ref.stack[0]
+			}
+			want := "nf"
+			if bv, has := base[string(k)]; has {
+				want = "v " + hd(hx(bv))
+			}
+			if !oracle("snapshot-read-ignores-staging", res == want) {
+				setFail("snapshot-read-ignores-staging", idx, res+" want "+want)
+			}
+		case "siter", "sriter":
+			lo, hi := unhx(o.Lo), unhx(o.Hi)
+			rev := o.Op == "sriter"
+			var l []KV
+			var e string
+			pan := protect(func() {
+				if rev {
+					l, e = drain(buf.SnapshotIterReverse(hi, lo), nil)
+				} else {
+					l, e = drain(buf.SnapshotIter(lo, hi), nil)
+				}
+			})
+			res := kvsString(l) + e
+			if pan != "" {
+				res = "panic"
+			}
+			line(idx, o.Op, []string{hd(o.Lo), hd(o.Hi)}, res)
+			base := ref.buf
+			if len(ref.stack) > 0 {
+				base = ref.stack[0]
+			}
+			var wl []KV
+			for k, v := range base {
+				if inBounds([]byte(k), lo, hi) {
+					wl = append(wl, KV{[]byte(k), v})
+				}
+			}
+			sort.Slice(wl, func(i, j int) bool {
+				c := bytes.Compare(wl[i].K, wl[j].K)
+				if rev {
+					return c > 0
+				}
+				return c < 0
+			})
+			if !oracle("snapshot-iter-ignores-staging", pan == "" && e == "" && kvsString(wl) == kvsString(l)) {
+				setFail("snapshot-iter-ignores-staging", idx, res+" want "+kvsString(wl))
+			}
+		case "hist":
+			k := unhx(o.K)
+			var hl [][]byte
+			var herr error
+			pan := protect(func() { hl, herr = unionstore.VerifUnionHistory(buf, k) })
+			res := "nf"
+			if pan != "" {
+				res = "panic"
+			} else if herr == nil {
+				var parts []string
+				for _, v := range hl {
+					parts = append(parts, hd(hx(v)))
+				}
+				res = "h " + strings.Join(parts, ",")
+			}
+			line(idx, "hist", []string{hd(o.K)}, res)
+			// the newest version is the buffered value; a key without value has no history
+			bv, has := ref.buf[string(k)]
+			ok := pan == "" && (has == (herr == nil)) && (!has || (len(hl) > 0 && bytes.Equal(hl[0], bv)))
+			if !oracle("history-head=buffered-value", ok) {
+				setFail("history-head=buffered-value", idx, res)
+			}
+		case "inspect":
+			h := o.H
+			if h < 0 {
+				h = tr.depth()
+			}
+			if h < 1 || h > tr.depth() {
+				continue
+			}
+			var parts []string
+			seen := map[string]bool{}
+			dup := false
+			pan := protect(func() {
+				buf.InspectStage(h, func(k []byte, f kv.KeyFlags, v []byte) {
+					if seen[string(k)] {
+						dup = true
+					}
+					seen[string(k)] = true
+					parts = append(parts, hd(hx(k))+":"+strconv.Itoa(int(f))+":"+hd(hx(v)))
+				})
+			})
+			res := strings.Join(parts, ",")
+			if res == "" {
+				res = "-"
+			}
+			if pan != "" {
+				res = "panic"
+			}
+			line(idx, "inspect", []string{strconv.Itoa(h)}, res)
+			// exactly the keys whose buffered value differs from (or is newer than) the one at Staging h: at
+			// least every key whose value changed since, each once, with its current value
+			okI := pan == "" && !dup
+			before := ref.stack[h-1]
+			for k, v := range ref.buf {
+				if bv, had := before[k]; !had || !bytes.Equal(bv, v) {
+					if !seen[k] {
+						okI = false
+					}
+				}
+			}
+			if !oracle("inspect-stage-covers-changes", okI) {
+				setFail("inspect-stage-covers-changes", idx, res)
+			}
 		case "staging":
 			obs := fullObs(t)
 			var h int
@@ -786,7 +1164,7 @@ func execProgram(id int, p *Program, emit func(string)) (*failure, bool) {
 					}
 				} else {
 					tr.cleanup()
-					ref.buf = ref.stack[n]
+					ref.undoTo(ref.stack[n])
 					for id := range ref.cps {
 						if _, ok := tr.cps[id]; !ok {
 							delete(ref.cps, id)
@@ -827,7 +1205,7 @@ func execProgram(id int, p *Program, emit func(string)) (*failure, bool) {
 				res = "panic"
 			}
 			tr.revert(o.ID)
-			ref.buf = copyMap(ref.cps[o.ID])
+			ref.undoTo(copyMap(ref.cps[o.ID]))
 			for id := range ref.cps {
 				if _, ok := tr.cps[id]; !ok {
 					delete(ref.cps, id)
@@ -902,6 +1280,14 @@ func minimise(p *Program, wantFired *bool) *Program {
 				ks := append([]string{}, cur.Ops[i].Keys[:j]...)
 				ks = append(ks, cur.Ops[i].Keys[j+1:]...)
 				c.Ops[i].Keys = ks
+				if f, _ := fails(c, wantFired); f != nil {
+					cur = c
+					changed = true
+				}
+			}
+			if len(cur.Ops[i].F) > 0 || cur.Ops[i].Stale {
+				c := cloneProg(cur)
+				c.Ops[i].F, c.Ops[i].Stale = nil, false
 				if f, _ := fails(c, wantFired); f != nil {
 					cur = c
 					changed = true
@@ -998,10 +1384,63 @@ func genProgram(r *rand.Rand, targetKind string, nops int, nof03 bool, big bool)
 	}
 	tr := newTracker()
 	nextCp := 1
+	var lastBget []string
+	limited := r.Intn(8) == 0 // programs that play with the entry / buffer size limits
 	pick := func() []byte { return pool[r.Intn(len(pool))] }
 	for len(p.Ops) < nops {
-		x := r.Intn(100)
+		x := r.Intn(127)
+		if txn && r.Intn(40) == 0 {
+			p.Ops = append(p.Ops, Op{Op: "split", K: hx(genBound(r, pool))})
+			continue
+		}
+		genFops := func() []int {
+			if r.Intn(4) != 0 {
+				return nil
+			}
+			n := 1 + r.Intn(2)
+			var f []int
+			for i := 0; i < n; i++ {
+				f = append(f, r.Intn(22))
+			}
+			return f
+		}
 		switch {
+		case x >= 100 && x < 106:
+			f := genFops()
+			if f == nil {
+				f = []int{r.Intn(22)}
+			}
+			p.Ops = append(p.Ops, Op{Op: "uflags", K: hx(pick()), F: f})
+		case x >= 106 && x < 110:
+			p.Ops = append(p.Ops, Op{Op: "gflags", K: hx(pick())})
+		case x >= 110 && x < 113:
+			p.Ops = append(p.Ops, Op{Op: "len"})
+		case x >= 113 && x < 116:
+			if r.Intn(3) == 0 {
+				p.Ops = append(p.Ops, Op{Op: "riterf", Hi: hx(genBound(r, pool))})
+			} else {
+				p.Ops = append(p.Ops, Op{Op: "iterf", Lo: hx(genBound(r, pool)), Hi: hx(genBound(r, pool))})
+			}
+		case x >= 116 && x < 118:
+			p.Ops = append(p.Ops, Op{Op: "sget", K: hx(pick())})
+		case x >= 118 && x < 121:
+			kind := "siter"
+			if r.Intn(2) == 0 {
+				kind = "sriter"
+			}
+			p.Ops = append(p.Ops, Op{Op: kind, Lo: hx(genBound(r, pool)), Hi: hx(genBound(r, pool))})
+		case x >= 121 && x < 123:
+			p.Ops = append(p.Ops, Op{Op: "hist", K: hx(pick())})
+		case x >= 123 && x < 125:
+			if tr.depth() > 0 {
+				p.Ops = append(p.Ops, Op{Op: "inspect", H: 1 + r.Intn(tr.depth())})
+			}
+		case x >= 125:
+			if limited && r.Intn(3) != 0 {
+				p.Ops = append(p.Ops, Op{Op: "limits"}) // back to unlimited
+			} else if limited {
+				p.Ops = append(p.Ops, Op{Op: "limits", E: uint64(3 + r.Intn(6)), B: uint64(8 + r.Intn(40))})
+			}
 		case x < 28:
 			k := pick()
 			v := genValue(r, big)
@@ -1022,11 +1461,11 @@ func genProgram(r *rand.Rand, targetKind string, nops int, nof03 bool, big bool)
 				}
 				tr.write(string(k), v)
 			}
-			p.Ops = append(p.Ops, Op{Op: "set", K: hx(k), V: hx(v)})
+			p.Ops = append(p.Ops, Op{Op: "set", K: hx(k), V: hx(v), F: genFops(), Stale: r.Intn(15) == 0})
 		case x < 40:
 			k := pick()
 			tr.write(string(k), nil)
-			p.Ops = append(p.Ops, Op{Op: "del", K: hx(k)})
+			p.Ops = append(p.Ops, Op{Op: "del", K: hx(k), F: genFops(), Stale: r.Intn(20) == 0})
 		case x < 50:
 			p.Ops = append(p.Ops, Op{Op: "get", K: hx(pick())})
 		case x < 58:
@@ -1054,6 +1493,11 @@ func genProgram(r *rand.Rand, targetKind string, nops int, nof03 bool, big bool)
 					gstats["bget-duplicated-key"]++
 				}
 			}
+			if txn && lastBget != nil && r.Intn(3) == 0 {
+				ks = lastBget // same keys again: the snapshot's value cache is warm
+				gstats["txn-bget-repeated-keys"]++
+			}
+			lastBget = ks
 			p.Ops = append(p.Ops, Op{Op: "bget", Keys: ks})
 		case x < 68:
 			p.Ops = append(p.Ops, Op{Op: "iter", Lo: hx(genBound(r, pool)), Hi: hx(genBound(r, pool))})
@@ -1136,9 +1580,9 @@ func report(out *bufio.Writer, id int, p *Program, f *failure, fired bool) {
 	}
 	pj, _ := json.Marshal(p)
 	mj, _ := json.Marshal(min)
-	detail := ""
+	detail := "original: " + f.detail
 	if mf != nil {
-		detail = mf.detail
+		detail = mf.detail + " || " + detail
 	}
 	fmt.Fprintf(out, "FAIL\t%s\t%d\t%s\t%s\t%s\t%v\t%s\t%d\n", oname, f.idx, pj, mj, transcript(min), minFired, strings.ReplaceAll(detail, "\t", " "), id)
 }
@@ -1146,7 +1590,12 @@ func report(out *bufio.Writer, id int, p *Program, f *failure, fired bool) {
 func main() {
 	// the library logs to stdout ("delete a record not exists?" on every leading tombstone): keep the
 	// transcript apart (VERIF_OUT) and the log quiet
-	log.SetLevel(zapcore.ErrorLevel)
+	if os.Getenv("VERIF_C07_LOG") != "" {
+		log.SetLevel(zapcore.DebugLevel)
+	} else {
+		log.SetLevel(zapcore.FatalLevel)
+	}
+	// Panic-level records (stale iterator probes) would print a stack each
 	dst := os.Stdout
 	if f := os.Getenv("VERIF_OUT"); f != "" {
 		fh, err := os.Create(f)
@@ -1156,7 +1605,14 @@ func main() {
 	}
 	out := bufio.NewWriterSize(dst, 1<<20)
 	defer out.Flush()
-	emit := func(s string) { out.WriteString(s); out.WriteByte('\n') }
+	flushEach := os.Getenv("VERIF_C07_FLUSH") != ""
+	emit := func(s string) {
+		out.WriteString(s)
+		out.WriteByte('\n')
+		if flushEach {
+			out.Flush()
+		}
+	}
 	if len(os.Args) > 2 && os.Args[1] == "replay" {
 		data, err := os.ReadFile(os.Args[2])
 		must(err)
